@@ -62,6 +62,7 @@ type W struct {
 	cur      uint64
 	variant  string
 	aux      any // per-worker resource of the property runner (e.g. a guard region)
+	aux2 any
 }
 
 func newW(prop, tier string, seed uint64, outPath, journalPath string) *W {
@@ -150,6 +151,18 @@ func (w *W) flushSummary() {
 	w.out.Write(b)
 	w.out.WriteByte('\n')
 	w.out.Flush()
+}
+
+// Abandon ends the worker process deliberately in the middle of case i: the verdict of the case has been
+// recorded, but a call that exceeded its work budget is still running and a goroutine cannot be stopped.
+// The supervisor restarts a worker for the remaining cases ("X" in the journal = no crash).
+func (w *W) Abandon(i uint64) {
+	w.sum.Cases++
+	w.Count("event:worker-abandoned-after-budget", 1)
+	w.flushSummary()
+	fmt.Fprintf(w.journal, "X %d\n", i)
+	w.journal.Close()
+	os.Exit(0)
 }
 
 func (w *W) close() {
